@@ -36,7 +36,7 @@ def outcomeFn (args : List String) : String → HostOutcome :=
     | _ => none)
   fun h => ((tbl.find? (fun kv => kv.1 == h)).map (·.2)).getD .ack
 
-def universeNodes : List String := ["n0", "n1", "n2", "n3", "n4", "n5", "n6", "n7"]
+def universeNodes : List String := ["n0", "n1", "n2", "n3", "n4", "n5", "n6", "n7", "n0up", "n1up"]
 def universeWallets : List String := ["w0", "w1", "w2", "w3", "w0lc", "w1lc", "w2lc", "w3lc"]
 
 def dumpPool (p : Pool) (now : Int) : String :=
